@@ -2,8 +2,17 @@
 """Run every seeded change against the check of its property, in a scratch copy of /repo
 (VERIF_REPO), and record the outcome in seeded/<id>/meta.json and seeded/RESULTS.md."""
 import json, os, re, subprocess, sys, glob, shutil
-ids = sys.argv[1:] or sorted(os.path.basename(d.rstrip('/')) for d in glob.glob('/verif/seeded/*/'))
+args = sys.argv[1:]
 wt = '/tmp/seedrun'
+# --worker k/n: this process handles every n-th change (own worktree), for parallel runs
+if args and args[0] == '--worker':
+    k, n = map(int, args[1].split('/'))
+    args = args[2:]
+    wt = '/tmp/seedrun_%d' % k
+else:
+    k, n = 0, 1
+ids = args or sorted(os.path.basename(d.rstrip('/')) for d in glob.glob('/verif/seeded/*/'))
+ids = [x for i, x in enumerate(ids) if i % n == k]
 subprocess.run(['git', '-C', '/repo', 'worktree', 'remove', '--force', wt], stdout=subprocess.DEVNULL, stderr=subprocess.DEVNULL)
 subprocess.run(['git', '-C', '/repo', 'worktree', 'add', '-q', '--detach', wt, 'HEAD'], check=True)
 # uncommitted contract edits
